@@ -238,3 +238,53 @@ func c14Fnv(b []byte) uint64 {
 func c14Lens(shift int) func(int) int {
 	return func(k int) int { return (k + shift) % 3 }
 }
+
+// c14HubChain builds a concrete well-formed payload of n frames in the hub-chain layout of the
+// schema comment (frame 0 links the next f frames, the last of them links the following f, ...;
+// f >= n: the head links every frame), cidBase separates payloads. reversed: links of every list
+// and the numbering of the frames run against the layout order. Frame k carries lens(k)
+// position-dependent bytes. total = n and the checksum (CRC64, or FNV-1a when fnv) are set on
+// every frame.
+func c14HubChain(n, f int, reversed bool, cidBase int, lens func(k int) int, fnv bool) *c14Payload {
+	saveC, saveR := c14Concrete, c14RevLinks
+	c14Concrete, c14RevLinks = true, reversed
+	parent := make([]int, n)
+	hub, inHub := 0, 0
+	for k := 1; k < n; k++ {
+		parent[k] = hub
+		inHub++
+		if inHub == f {
+			hub, inHub = k, 0
+		}
+	}
+	rank := make([]int, n)
+	for k := range rank {
+		rank[k] = k
+		if reversed {
+			rank[k] = n - 1 - k
+		}
+	}
+	p := c14BuildPayload(n, parent, rank, cidBase, lens)
+	for k := 0; k < n; k++ {
+		for j := range p.data[k] {
+			b := byte(4*k + 2*j + 1 + j/251 + 3*cidBase)
+			p.data[k][j] = b
+			p.frames[k].Data[j] = b
+		}
+	}
+	p.orig = p.orig[:0]
+	for r := 0; r < n; r++ {
+		k := r
+		if reversed {
+			k = n - 1 - r
+		}
+		p.orig = append(p.orig, p.data[k]...)
+	}
+	h := c14Crc(p.orig)
+	if fnv {
+		h = c14Fnv(p.orig)
+	}
+	p.setMeta(n, true, int(h))
+	c14Concrete, c14RevLinks = saveC, saveR
+	return p
+}
